@@ -19,8 +19,8 @@ JAC = {'gauss-gegenbauer': [(0.5, None), (2.0, None)], 'gauss-gegenbauer-odd': [
 
 def configs(tier):
     cs = []
-    def add(sp, mode=0):
-        cs.append(Config(short(sp) + ('-values' if mode else ''), 'C02', [sp, mode], max_paths=1))
+    def add(sp, mode=0, hist=0):
+        cs.append(Config(short(sp) + ('-values' if mode else '') + ('-hist%d' % hist if hist else ''), 'C02', [sp, mode, hist], max_paths=1))
     if tier == 'quick':
         # every rule in 1-D up to a depth that reaches all table entries with <= 13 points, and in 2-D at a small depth (each configuration costs ~0.1 s)
         for rule in NESTED_GLOBAL + NON_NESTED:
@@ -33,6 +33,9 @@ def configs(tier):
         for rule in SEQUENCE_RULES: add(spec('sequence', rule, 2, 1, 4)); add(spec('sequence', rule, 1, 1, 6, transform=1))
         add(spec('sequence', 'min-lebesgue', 2, 1, 4, 'qptotal', transform=1)); add(spec('sequence', 'leja', 3, 1, 3))
         add(spec('fourier', 'fourier', 2, 1, 2)); add(spec('fourier', 'fourier', 1, 1, 3, transform=1))
+        for h in (1, 2, 3, 4, 5):   # the weights of a grid reached through update / copy / round trip / assignment (rules that use alpha and beta)
+            add(spec('global', 'gauss-jacobi', 2, 1, 2, alpha=0.5, beta=1.5), 0, h); add(spec('global', 'gauss-hermite', 1, 1, 3, alpha=2.0), 0, h)
+        add(spec('global', 'gauss-laguerre', 2, 1, 2, transform=1, alpha=1.5), 0, 1); add(spec('global', 'gauss-gegenbauer', 2, 1, 3, alpha=2.0), 0, 2); add(spec('sequence', 'rleja', 2, 1, 3), 0, 2); add(spec('fourier', 'fourier', 2, 1, 2), 0, 1)
         add(spec('global', 'clenshaw-curtis', 2, 2, 3), 1); add(spec('sequence', 'leja', 2, 2, 3), 1); add(spec('fourier', 'fourier', 2, 1, 2), 1); add(spec('global', 'gauss-legendre', 2, 1, 2), 1)
     else:
         for rule in NESTED_GLOBAL + NON_NESTED:
@@ -57,12 +60,19 @@ def configs(tier):
         add(spec('fourier', 'fourier', 2, 1, 3, 'iptotal', aniso=1)); add(spec('fourier', 'fourier', 2, 2, 2), 1)
         for rule in ('clenshaw-curtis', 'gauss-legendre', 'leja', 'gauss-hermite', 'chebyshev'):
             add(spec('global', rule, 2, 2, 3, transform=1), 1)
+        for h in (1, 2, 3, 4, 5):
+            for rule in NESTED_GLOBAL[:4] + NON_NESTED:
+                for (a, b) in JAC.get(rule, [(None, None)])[:2]:
+                    jac_general = rule.startswith('gauss-jacobi') and a != b
+                    add(spec('global', rule, 2, 1, 2 if jac_general else 3, 'level', transform=(h % 2), alpha=a, beta=b), 0, h)
+                    add(spec('global', rule, 1, 1, 3, 'level', alpha=a, beta=b), 0, h)
+            add(spec('sequence', 'rleja', 2, 1, 3, transform=1), 0, h); add(spec('sequence', 'min-delta', 2, 1, 3), 0, h); add(spec('fourier', 'fourier', 2, 1, 2, transform=(h % 2)), 0, h)
     return cs
 
 
 def run(tier, seed, only=None):
     cs = filt(configs(tier), only)
-    META['bounds'] = {'dims': '1..3', 'depth': '<= 6 (1-D), <= 5 (2-D), <= 3 (3-D)', 'alpha/beta': 'the listed pairs', 'transforms': 'none and one affine box'}
+    META['bounds'] = {'dims': '1..3', 'depth': '<= 6 (1-D), <= 5 (2-D), <= 3 (3-D)', 'alpha/beta': 'the listed pairs', 'transforms': 'none and one affine box', 'histories': 'make; value-less update; load-update-load; copy; binary round trip; assignment'}
     ks = [] if only else kmeta(tier)
     META.setdefault('functions_encoded', []).append('OneDimensionalMeta::{getNumPoints, getIExact, getQExact} for all 35 global rules via ir2c + CBMC (table consistency, no signed overflow up to the level bound)')
     return runner.run_property('C02', cs, tier, seed, META, ks)
